@@ -168,7 +168,8 @@ Definition err_eqb (x y : err) : bool :=
 Fixpoint has_dup (l : list N) : bool :=
   match l with [] => false | x :: l' => existsb (N.eqb x) l' || has_dup l' end.
 
-(* [eaves]: the connections that hold an eavesdrop match rule matching this message (from the shared matcher of Routing.v;
+(* [eaves]: the connections that hold an eavesdrop match rule matching this message -- for a call to the bus driver: this call --
+   (from the shared matcher of Routing.v;
    match-rule semantics are property C07) *)
 (* [full]: the addressed recipient is stalled with its queue at the bus over max_outgoing_bytes (harness-controlled fact) *)
 (* is l1 a subsequence of l2 *)
@@ -191,6 +192,14 @@ Definition release_ok (held : list (N * msg)) (w : N) (o : out) : bool :=
   forallb (fun x => existsb (pair_eqb (fst x, m_token (snd x))) fwd ||
                     existsb (fun y => match snd y with OErr _ rs => (fst y =? fst x) && (rs =? m_serial (snd x)) | _ => false end) o) held &&
   negb (existsb (fun x => match snd x with OFwd _ _ => negb (fst x =? w) | _ => false end) o).
+
+(* copies of a call to the bus driver: only to connections entitled to eavesdrop ([eaves]), one each, and of THIS call *)
+Definition drv_copies_ok (c s : N) (eaves : list N) (o : out) : bool :=
+  forallb (fun x => match snd x with OCall f sr => (f =? c) && (sr =? s) && existsb (N.eqb (fst x)) eaves | _ => true end) o &&
+  negb (has_dup (map fst (filter (fun x => match snd x with OCall _ _ => true | _ => false end) o))).
+Definition drv_step_code (c s : N) (eaves : list N) (o : out) : N :=
+  if existsb (fun x => match snd x with ODrv _ _ | OCall _ _ => false | _ => true end) o then 2
+  else if drv_copies_ok c s eaves o then 0 else 3.
 
 (* [holdok]: the destination is an unowned name with a service file and the message may auto-start it (then it is held: no
    output, unless the activation's first-pass policy check refuses it);
@@ -238,9 +247,10 @@ Definition oracle_step (cf : cfg) (tr : trace) (owner : option N) (eaves : list 
       end
   | ERequestName c sr _ _ _ _ =>
       match held, owner with
-      | [], _ | _, None => if existsb (fun x => match snd x with ODrv _ _ => false | _ => true end) o then 2 else 0
-      | _, Some w => if release_ok held w o then 0 else 10
+      | [], _ | _, None => drv_step_code c sr eaves o
+      | _, Some w => if negb (release_ok held w o) then 10 else if drv_copies_ok c sr eaves o then 0 else 3
       end
+  | EReleaseName c sr _ | EAddMatch c sr _ | EDriverCall c sr => drv_step_code c sr eaves o
   | EDisconnect _ | ETick _ =>
       if negb (Nat.eqb (length (noreplies o)) (length o)) then 4
       else if same_multiset (noreplies o) (expected_noreplies T tr e) then 0 else 4
